@@ -226,6 +226,32 @@ class SudoWorld(object):
 
 
 # ------------------------------------------------------------------ stub worker thread for the decision table
+class WouldDie(Exception):
+    """SIGTERM would hit the default action: the process dies on the spot (observed instead of suffered)"""
+
+
+def deliver_in_main_thread(sig):
+    """what the arrival of `sig` does in the main thread at this point: run the handler that is installed for it
+    (SIGINT: the interpreter's default_int_handler raises KeyboardInterrupt; SIGTERM: whatever ReBench installed).
+    Never the default action: a SIGTERM without a Python handler is reported as WouldDie."""
+    handler = signal.getsignal(sig)
+    if callable(handler):
+        handler(sig, sys._getframe())
+        return
+    if sig == signal.SIGINT:
+        raise KeyboardInterrupt()
+    raise WouldDie('no handler installed for signal %d' % sig)
+
+
+def real_signal_to_main_thread(sig):
+    """a real signal for the main thread of this (the harness's own) process; SIGTERM only if a Python handler
+    is installed, otherwise the check itself would be killed"""
+    if sig == signal.SIGTERM and not callable(signal.getsignal(signal.SIGTERM)):
+        return False
+    signal.pthread_kill(threading.main_thread().ident, sig)
+    return True
+
+
 class WouldBlockForEver(Exception):
     """the real code would wait for ever here (observed instead of waited for)"""
 
@@ -250,7 +276,7 @@ class StubThread(object):
         # launched (no thread, no child) or just after (the worker will start the child)
         if self.c.get('start_interrupt'):
             self.ended = True
-            raise KeyboardInterrupt()
+            deliver_in_main_thread(self.c.get('signal', signal.SIGINT))
 
     @property
     def ident(self):
@@ -268,7 +294,8 @@ class StubThread(object):
         self.main_joins.append(timeout)
         if c['join_end'] == 'interrupt':
             self.ended = True
-            raise KeyboardInterrupt()
+            deliver_in_main_thread(c.get('signal', signal.SIGINT))
+            raise lib.InfraError('the handler of the signal returned: the join would go on')
         if c['join_end'] == 'finished':
             self.ended = True
             return
@@ -331,6 +358,12 @@ def run_decision(sit, tree, kill_tree, uses_sudo, sudo_outcomes=None, ignore_ter
             except KeyboardInterrupt:
                 end = ['raise', 'KeyboardInterrupt']
                 ret = None
+            except SystemExit as e:
+                end = ['raise', 'SystemExit(%s)' % (e.code,)]
+                ret = None
+            except WouldDie as e:
+                end = ['dies', str(e)]
+                ret = None
             except OSError:
                 end = ['raise', 'worker']
                 ret = None
@@ -356,8 +389,11 @@ class TreeLayer(drive.ProcessLayer):
     """`drive.ProcessLayer` whose scripted processes have scripted descendants (with process groups and
     sessions) for any `pgrep` query"""
 
-    def __init__(self, script, tree_of, sigint_main=False):
+    def __init__(self, script, tree_of, sigint_main=False, sig=signal.SIGINT, slow_popen=False):
         super(TreeLayer, self).__init__(script)
+        self.sig = sig                     # the signal that interrupts the main thread
+        self.slow_popen = slow_popen       # the signal arrives while Popen has not returned: no pid published yet
+        self.sent = None
         self.tree_of = tree_of             # root fake pid -> tree dict
         self.ptable = ProcTable()
         # a real SIGINT for the main thread of this (the harness's own) process while it waits in
@@ -373,6 +409,13 @@ class TreeLayer(drive.ProcessLayer):
         # does the child lead a session / process group of its own?
         leads = bool(kw.get('start_new_session')) or kw.get('process_group') == 0 or kw.get('preexec_fn') is not None
         self.ptable.add_tree(self.tree_of(proc.pid), ppid=os.getpid(), root_leads_session=leads)
+        if self.slow_popen:
+            # the child exists, but Popen is slow to return (fork / exec of a big process): the signal reaches the
+            # main thread, which is already waiting, before the worker can publish the pid
+            self.in_join.wait(30)
+            time.sleep(0.05)
+            self.sent = real_signal_to_main_thread(self.sig)
+            time.sleep(0.2)
         # give the main thread time to reach Thread.join before the child "does" anything
         orig = proc.communicate
 
@@ -382,7 +425,7 @@ class TreeLayer(drive.ProcessLayer):
                 self.in_join.wait(30)
             time.sleep(0.05)
             if self.sigint_main:
-                signal.pthread_kill(threading.main_thread().ident, signal.SIGINT)
+                self.sent = real_signal_to_main_thread(self.sig)
             return orig()
         proc.communicate = delayed
         return proc
@@ -434,7 +477,7 @@ time.sleep(40)
 HARNESS_SH = r'''#!/bin/sh
 # benchmark harness: <dir> <benchmark>; behaviour from <dir>/<benchmark>.plan: "<mode> <depth> <fanout>"
 DIR="$1"; B="$2"
-read MODE D F PY K < "$DIR/$B.plan"
+read MODE D F PY K L < "$DIR/$B.plan"
 LOG="$DIR/$B.log"
 if [ "$MODE" = "hangat" ]; then
   # hang in the K-th invocation only: the earlier ones end normally (the signal then arrives while a later
@@ -447,6 +490,9 @@ if [ "$MODE" = "hangat" ]; then
 fi
 echo "start $$ $PPID" >> "$LOG"
 echo "$B: iterations=1 runtime: 111ms"
+# a burst of output right away (L data points): it is in the pipe long before ReBench reads it
+j=0
+while [ "$j" -lt "${L:-0}" ]; do echo "$B: iterations=1 runtime: ${j}ms"; j=$((j+1)); done
 if [ "$MODE" = "hang" ]; then
   i=0
   while [ "$i" -lt "$F" ] && [ "$D" -gt 0 ]; do
@@ -532,9 +578,17 @@ def session_members(sid):
 class RealSession(object):
     """one real `rebench` CLI process in its own session"""
 
-    def __init__(self, wd, conf, extra_args=()):
+    def __init__(self, wd, conf, extra_args=(), popen_delay=0):
         code = ('import sys; sys.path.insert(0, %r); from rebench.rebench import main_func; sys.exit(main_func())'
                 % lib.REPO)
+        if popen_delay:
+            # a driver in which Popen is slow to return (the child exists, its pid is not published yet)
+            code = ('import sys, time; sys.path.insert(0, %r); import rebench.subprocess_with_timeout as swt; '
+                    '_P = swt.Popen\n'
+                    'def slow(*a, **k):\n'
+                    '    p = _P(*a, **k); time.sleep(%r); return p\n'
+                    'swt.Popen = slow\n'
+                    'from rebench.rebench import main_func; sys.exit(main_func())' % (lib.REPO, popen_delay))
         env = {'PATH': '/usr/bin:/bin', 'PYTHONHASHSEED': '0', 'PYTHONDONTWRITEBYTECODE': '1', 'HOME': wd}
         self.out = open(os.path.join(wd, 'rebench.out'), 'w')
         self.proc = subprocess.Popen([sys.executable, '-c', code, '-D'] + list(extra_args) + [conf], cwd=wd, env=env,
@@ -616,7 +670,7 @@ def wait_until(pred, timeout, step=0.02):
     return pred()
 
 
-def write_real_scenario(wd, benchmarks, limit, ignore_timeouts, invocations=1, forker=False):
+def write_real_scenario(wd, benchmarks, limit, ignore_timeouts, invocations=1, forker=False, lines=0, exclusive=True):
     """benchmarks: list of (name, mode, depth, fanout)"""
     with open(os.path.join(wd, 'node.sh'), 'w') as f:
         f.write(NODE_SH)
@@ -626,12 +680,13 @@ def write_real_scenario(wd, benchmarks, limit, ignore_timeouts, invocations=1, f
         f.write(FORKER_PY)
     for (b, mode, d, fo) in benchmarks:
         with open(os.path.join(wd, b + '.plan'), 'w') as f:
-            f.write('%s %d %d %s %d\n' % (mode, d, fo, sys.executable if (forker and mode != 'normal') else '0',
-                                          invocations))
+            f.write('%s %d %d %s %d %d\n' % (mode, d, fo, sys.executable if (forker and mode != 'normal') else '0',
+                                             invocations, lines))
     suite = {'gauge_adapter': 'RebenchLog', 'command': '%s/harness.sh %s %%(benchmark)s' % (wd, wd),
              'benchmarks': [b for (b, _m, _d, _f) in benchmarks], 'max_invocation_time': limit,
              'ignore_timeouts': bool(ignore_timeouts)}
-    cfg = {'default_experiment': 'T', 'default_data_file': 't.data', 'runs': {'invocations': invocations},
+    cfg = {'default_experiment': 'T', 'default_data_file': 't.data',
+           'runs': dict({'invocations': invocations}, **({} if exclusive else {'execute_exclusively': False})),
            'benchmark_suites': {'S': suite}, 'executors': {'E': {'path': '/bin', 'executable': 'sh'}},
            'experiments': {'T': {'suites': ['S'], 'executions': ['E']}}}
     return drive.write_config(wd, cfg)
